@@ -34,3 +34,23 @@ func GCBarrier() bool {
 	}
 	return true
 }
+
+// Churn allocates (and returns, so that the caller keeps them alive) many small heap objects of the size classes up to
+// 1 KiB, filled with a junk pattern: memory that the collector has just freed is handed out again and overwritten, so a
+// raw address that still points there (an object kept alive by nothing but a uintptr) reads junk instead of its old
+// contents.
+func Churn() [][]byte {
+	var keep [][]byte
+	for round := 0; round < 4; round++ {
+		for _, sz := range []int{16, 32, 48, 64, 96, 128, 144, 160, 192, 256, 288, 320, 384, 512, 1024} {
+			for i := 0; i < 400; i++ {
+				b := make([]byte, sz)
+				for j := range b {
+					b[j] = 0xA5
+				}
+				keep = append(keep, b)
+			}
+		}
+	}
+	return keep
+}
